@@ -277,3 +277,146 @@ func runC05z(c *Ctx) {
 		c.Undecided("overlord/state.customData.set#store", set.Pos(), "the map update was not found")
 	}
 }
+
+func runC08z(c *Ctx) {
+	P := c.P
+	c.Rule("C08-R7", "W", "a notice expires counted from its LAST occurrence", 1)
+	ex := P.Func("overlord/state.(*Notice).expired")
+	fLast := P.Field("overlord/state.Notice.lastOccurred")
+	fFirst := P.Field("overlord/state.Notice.firstOccurred")
+	usesLast, usesFirst := false, false
+	for _, b := range ex.Blocks {
+		for _, in := range b.Instrs {
+			if fa, ok := in.(*ssa.FieldAddr); ok {
+				switch fieldOfAddr(fa) {
+				case fLast:
+					usesLast = true
+				case fFirst:
+					usesFirst = true
+				}
+			}
+		}
+	}
+	c.touch(ex)
+	c.Check(usesLast && !usesFirst, "overlord/state.(*Notice).expired#from-last-occurrence", ex.Pos(), "lastOccurred + expireAfter", "Notice.expired is not computed from lastOccurred alone: a long-lived notice that keeps re-occurring is dropped (and no longer delivered) once its first occurrence is older than the expiry time")
+}
+
+func runC12z(c *Ctx) {
+	P := c.P
+	c.Rule("C12-R7", "G", "boot.InUse reports a revision as needed for booting only for the snap whose name EQUALS the name in the boot variables (and the same revision)", 1)
+	iu := P.Func("boot.InUse")
+	snapName := P.TryObj("snap.PlaceInfo.SnapName")
+	n := 0
+	for _, af := range iu.AnonFuncs {
+		if af.Signature.Params().Len() != 2 {
+			continue
+		}
+		isCandName := func(v ssa.Value) bool {
+			cc, _, ok := CallResult(v)
+			if !ok {
+				return false
+			}
+			if cc.Common().IsInvoke() {
+				return cc.Common().Method.Name() == "SnapName" && (snapName == nil || cc.Common().Method == snapName)
+			}
+			co := CalleeOf(cc)
+			return co != nil && co.Name() == "SnapName"
+		}
+		sameName := Cmp("cand.SnapName()==name", isCandName, token.EQL, func(v ssa.Value) bool { return v == ssa.Value(af.Params[0]) || ResolvesToParam(v, af, 0) })
+		for _, lf := range ReturnLeaves(af, 0) {
+			if b, ok := ConstBool(lf.Val); ok && b {
+				n++
+				c.GuardedFlow(fmt.Sprintf("boot.InUse#in-use<=same-name#%d", n), af, lf, []Clause{{sameName}}, nil)
+			}
+		}
+	}
+	if n == 0 {
+		c.Undecided("boot.InUse#in-use", iu.Pos(), "the checker returned by boot.InUse (or its `return true`) was not found")
+	}
+}
+
+func runC17z(c *Ctx) {
+	P := c.P
+	c.Rule("C17-R8", "G", "piboot asks the firmware for a tryboot reboot only while kernel_status is exactly \"try\" (not once the trial boot is under way)", 1)
+	fn := P.Func("bootloader.(*piboot).GetRebootArguments")
+	isTry := Cmp("kernel_status==\"try\"", anyVal, token.EQL, VConstStr("try"))
+	n := 0
+	for _, lf := range ReturnLeaves(fn, 0) {
+		if s, ok := ConstString(lf.Val); ok && strings.Contains(s, "tryboot") {
+			n++
+			c.GuardedFlow(fmt.Sprintf("bootloader.(*piboot).GetRebootArguments#tryboot<=status-try#%d", n), fn, lf, []Clause{{isTry}}, nil)
+		}
+	}
+	if n == 0 {
+		c.Undecided("bootloader.(*piboot).GetRebootArguments#tryboot", fn.Pos(), "the tryboot reboot argument was not found")
+	}
+}
+
+func runC20z(c *Ctx) {
+	P := c.P
+	c.Rule("C20-R7", "W", "assembleAndSign leaves a zero revision / format out of the signed content AND out of the headers of the assertion it returns (what is decoded back has no such header either)", 2)
+	fn := P.Func("asserts.assembleAndSign")
+	have := map[string]bool{}
+	for _, b := range fn.Blocks {
+		for _, in := range b.Instrs {
+			cc, ok := in.(*ssa.Call)
+			if !ok {
+				continue
+			}
+			if bi, ok := cc.Call.Value.(*ssa.Builtin); ok && bi.Name() == "delete" {
+				if k, ok := ConstString(cc.Call.Args[1]); ok {
+					have[k] = true
+				}
+			}
+		}
+	}
+	c.touch(fn)
+	for _, k := range []string{"revision", "format"} {
+		c.Check(have[k], "asserts.assembleAndSign#zero-"+k+"-dropped-from-headers", fn.Pos(), "delete(finalHeaders, \""+k+"\") for the zero value", "assembleAndSign no longer removes a zero \""+k+"\" from the headers of the returned assertion while still omitting it from the encoded content: the assertion does not decode back to identical headers")
+	}
+}
+
+func runC22z(c *Ctx) {
+	P := c.P
+	pkg := "interfaces"
+	c.Rule("C22-R7", "W", "the repository tells snaps apart by instance: no decision compares the bare SnapName() of two snaps", 1)
+	snapName := P.FuncObj("snap.(*Info).SnapName")
+	n := 0
+	var bad []string
+	for _, fn := range P.FuncsIn(pkg) {
+		if !strings.HasSuffix(P.Fset.Position(fn.Pos()).Filename, "/repo.go") {
+			continue
+		}
+		n++
+		for _, b := range fn.Blocks {
+			for _, in := range b.Instrs {
+				if bo, ok := in.(*ssa.BinOp); ok && (bo.Op == token.EQL || bo.Op == token.NEQ) && VRes(0, ToFn(snapName))(bo.X) && VRes(0, ToFn(snapName))(bo.Y) {
+					bad = append(bad, SSAFuncName(fn)+" at "+P.Pos(bo.Pos()))
+				}
+			}
+		}
+	}
+	c.Check(len(bad) == 0 && n > 0, pkg+".Repository#instance-aware-comparisons", token.NoPos, fmt.Sprintf("%d functions of repo.go, no SnapName()==SnapName() test", n), fmt.Sprintf("two snaps are compared by SnapName() (%v): parallel instances of one snap are then taken for the same snap, e.g. a connection between them is dropped from Connections() and never disconnected in the state", bad))
+}
+
+func runC26z(c *Ctx) {
+	P := c.P
+	c.Rule("C26-R7", "W", "a new user's ID comes from the ever-increasing AuthState.LastID counter (IDs are never handed out again: the local macaroon is derived from the ID)", 1)
+	nu := P.Func("overlord/auth.NewUser")
+	fLast := P.Field("overlord/auth.AuthState.LastID")
+	fID := P.Field("overlord/auth.UserState.ID")
+	sts := StoresToField(nu, fID)
+	if len(sts) == 0 {
+		c.Undecided("overlord/auth.NewUser#id", nu.Pos(), "the store of the new user's ID was not found")
+		return
+	}
+	incremented := false
+	for _, st := range StoresToField(nu, fLast) {
+		if bo, ok := Strip(st.Val).(*ssa.BinOp); ok && bo.Op == token.ADD && VField(fLast)(bo.X) {
+			incremented = true
+		}
+	}
+	for i, st := range sts {
+		c.Check(incremented && VField(fLast)(st.Val), fmt.Sprintf("overlord/auth.NewUser#id-from-counter#%d", i+1), st.Pos(), "ID = ++LastID", "the ID of a new user is not taken from the incremented LastID counter: an ID can be reused after a user was removed, and with it the removed user's macaroon becomes valid for the new user")
+	}
+}
